@@ -35,6 +35,9 @@ var zzC19Scripts = []string{
 	// host-map members whose names differ only by the legacy prefix or by case
 	"return count;",
 	"return $count * 10 + Count;",
+	// literals denote the same value in every run and every call
+	"x = 1.5; x++; y = 70000; y--; return x + y;",
+	"function f() { z = 2.5; z--; z -= 0.5; return z; } return f() + f();",
 	// (last: the 4-key script multiplies permutations - thorough only)
 	"h = {A: \"x\", B: \"y\", \"5\": \"z\", 2.5: \"w\"}; r = \"\"; foreach k, v in h { r = r + v; } return r;",
 }
@@ -122,7 +125,7 @@ func zzC19Body(sv *zzsv.T) {
 	src := zzC19Scripts[k]
 	sv.Note("script", src)
 	var a, b int64
-	if k == 14 || k == 17 {
+	if k == 14 || k == 19 {
 		// integer keys of one and two digits next to string/float keys:
 		// representative pairs (symbolic keys would have to be rendered and
 		// ordered digit by digit under every permutation)
@@ -137,7 +140,7 @@ func zzC19Body(sv *zzsv.T) {
 		sv.Assume(b >= 0)
 		sv.Assume(b <= 3)
 	}
-	sv.Region("duplicate_key_in_literal", k == 5 || k == 6 || ((k == 7 || k == 14 || k == 17) && a == b))
+	sv.Region("duplicate_key_in_literal", k == 5 || k == 6 || ((k == 7 || k == 14 || k == 19) && a == b))
 	sv.Region("keys_printing_alike", k == 3 || k == 4)
 	sv.MapOrderNondet(false)
 	r1 := zzC19Do(sv, src, a, b, k == 15 || k == 16) // reference: insertion order everywhere
@@ -167,6 +170,11 @@ func zzC19Body(sv *zzsv.T) {
 		if !r1.errs[i] && !r2.errs[i] {
 			sv.Assert("C19.same_result", r1.out[i].Type() == r2.out[i].Type() && r1.out[i].Inspect() == r2.out[i].Inspect())
 		}
+	}
+	// every script here (re)assigns what it reads: the second run of the same
+	// prepared evaluator gives what the first gave
+	if !r1.errs[0] && !r1.errs[1] {
+		sv.Assert("C19.repeatable", r1.out[0].Type() == r1.out[1].Type() && r1.out[0].Inspect() == r1.out[1].Inspect())
 	}
 	sv.Assert("C19.same_calls", len(r1.trace) == len(r2.trace))
 	if len(r1.trace) == len(r2.trace) {
